@@ -132,8 +132,6 @@ class SerializerBase(object):
         if type(obj) in (set, dict, tuple, list):
             # we use a ValueError to mirror the exception type returned by serpent and other serializers
             raise ValueError("can't serialize type " + str(obj.__class__) + " into a dict")
-        if hasattr(obj, "_pyroDaemon"):
-            obj._pyroDaemon = None
         if isinstance(obj, BaseException):
             # special case for exceptions
             return {
@@ -153,6 +151,7 @@ class SerializerBase(object):
                 return value
         try:
             value = dict(vars(obj))  # make sure we can serialize anything that resembles a dict
+            value.pop("_pyroDaemon", None)   # the daemon an object is (or was) registered in is not part of its value
             value["__class__"] = obj.__class__.__module__ + "." + obj.__class__.__name__
             return value
         except TypeError:
